@@ -192,6 +192,13 @@ func c03(r *ev.Run, pairMode bool) {
 		}
 		afterWarmups(r, "hotp-validate-after-other-operations", cs, func(c c03Case) (string, string) { return hotpValidate(c, k, nil, pairMode) })
 	}
+	volume(r, "hotp-validate-volume", 1100, func(k int) c03Case {
+		key := []byte(fmt.Sprintf("volume-key-%04d", k/2))
+		return c03Case{ref.B32Encode(key), ref.HOTP(key, uint64(k)+uint64(k%5), 6, k%3), uint64(k), uint64(k % 4), 6, k % 3, false}
+	}, func(c c03Case) (string, string) {
+		_, key := ref.B32Classify(c.Secret)
+		return hotpValidate(c, key, nil, pairMode)
+	})
 	if ReplayOnly {
 		return
 	}
